@@ -242,7 +242,9 @@ def run(ctx):
                 "sequences. MBT: MC_PFB emits (input bytes, buffer sizes, reader script, content, terminal class): exh = all "
                 "streams within the bounds x all buffer-size sequences up to the first call that cannot be filled x reader "
                 "scripts; hdr = all 65536 first-two-byte values x 4 length fields; sim = seeded random streams with segments "
-                "up to 2000 bytes and buffers 1..64. vh replay-pfb calls pfb.Decode(r).Read with exactly those sizes and "
+                "up to 2000 bytes and buffers 0..64; big = described segments of 65535..65537 and 2^24-1..2^24+3 bytes (every byte of the "
+                "length field), judged by the harness's transcription of PfbReadOK. Buffer-size sequences of the exh family contain "
+                "one Read with an empty buffer (returns nothing, changes nothing). vh replay-pfb calls pfb.Decode(r).Read with exactly those sizes and "
                 "judges every result; the recorded observations of a sample are validated again by TLC (TracePFB), which also "
                 "cross-checks the harness comparator. TV: seeded random streams/schedules recorded from the real decoder and "
                 "validated by TLC against PfbParse of the recorded input. Every vector is a distinct stimulus.")
